@@ -54,7 +54,23 @@ def gen_cases(rng, tier):
         dst = DSTS[i % len(DSTS)] if rng.random() < 0.7 else rng.choice(DSTS)
         pre = rng.choice([[], ["ok/f"], ["ok/", "ok/g", "h"]])
         post = rng.choice([[], ["after"], ["../out2/late"]])
-        cases.append({"id": i, "dst": dst, "names": pre + [n] + post})
+        cases.append({"id": i, "steps": [{"dst": dst, "names": pre + [n] + post}]})
+    # histories: several archives extracted by one process into sibling destinations; a later archive
+    # names files of an earlier destination (state kept between calls must not weaken the check)
+    sib = {"out": ["out", "out/", "$CWD/out"], "out2": ["out2", "out2/", "$CWD/out2", "../w/out2"], "ou": ["ou", "./ou"]}
+    nh = 300 if tier == "quick" else 6000
+    for j in range(nh):
+        order = rng.sample(sorted(sib), rng.choice([2, 2, 3]))
+        steps = []
+        for k, d in enumerate(order):
+            nm = rng.choice([["images/a.png", "nfo.json"], ["nfo.json"], ["images/", "images/a.png", "b/c/d.txt"]])
+            nm = list(nm)
+            for prev in order[:k]:
+                tgt = rng.choice(["images/planted.png", "nfo.json", "new.txt", "images/a.png", "x/y"])
+                form = rng.choice(["../%s/%s", "a/../../%s/%s", "$CWD/%s/%s", "..\\%s\\%s", "./../%s/%s"])
+                nm.insert(rng.randrange(len(nm) + 1), form % (prev, tgt))
+            steps.append({"dst": rng.choice(sib[d]), "names": nm})
+        cases.append({"id": len(cases), "steps": steps})
     return cases
 
 
@@ -84,70 +100,73 @@ def run_cases(run, cases, exe, src):
             results.append(json.loads(ln))
     if rc != 0 or len(results) != len(cases):
         raise RuntimeError("impl harness failed rc=%s got %d/%d results: %s" % (rc, len(results), len(cases), out[-800:]))
-    lines = "".join(model_line(r["cwd"], r["dst"], r["read_names"]) + "\n" for r in results if "harness_error" not in r)
+    for r in results:
+        if "harness_error" in r:
+            raise RuntimeError("harness error: " + r["harness_error"])
+    lines = "".join(model_line(r["cwd"], st["dst"], st["read_names"]) + "\n" for r in results for st in r["steps"])
     p = subprocess.run([exe], input=lines, capture_output=True, text=True, timeout=3000)
     mres = [parse_model(x) for x in p.stdout.splitlines()]
     disagreements = []
     k = 0
-    stats = {"DONE": 0, "REJ": 0, "OSERROR": 0, "other": 0}
+    stats = {"DONE": 0, "REJ": 0, "OSERROR": 0, "other": 0, "multi_step_cases": 0}
     for c, r in zip(cases, results):
-        if "harness_error" in r:
-            raise RuntimeError("harness error: " + r["harness_error"])
-        mops, mout = mres[k]
-        k += 1
-        key = (r["dst"].replace(r["cwd"], "$CWD"), tuple(n.replace(r["cwd"], "$CWD") for n in r["names"]))
-        run.count(key, nontrivial=any(x in n for n in c["names"] for x in ("..", "$CWD", "\\", "//")))
-        oc = r["outcome"].split()[0]
-        stats[oc if oc in stats else "other"] += 1
-        # --- monitor: the property's own oracle on the real filesystem
-        if r["outside"]:
-            run.hit(fingerprint="escape:" + json.dumps(key), what="extractall created/removed paths outside the destination: %r" % r["outside"][:3],
-                    replay={"case": c, "result": r})
-        if oc == "EXC":
-            run.hit(fingerprint="exc:" + r["outcome"] + json.dumps(key), what="extractall raised " + r["outcome"], replay={"case": c, "result": r})
-        # --- correspondence
-        if oc == "OSERROR":
-            # file/dir conflict inside the destination: real ops must be a prefix of the model's
-            # (the model does not track which directories already exist)
-            want = [o for o in mops]
-            got = r["ops"]
-            j = 0
-            ok = True
-            for g in got:
-                while j < len(want) and want[j] != g:
-                    if want[j][0] != "M":
+        cwd = r["cwd"]
+        key = tuple((st["dst"].replace(cwd, "$CWD"), tuple(n.replace(cwd, "$CWD") for n in st["names"])) for st in r["steps"])
+        run.count(key, nontrivial=any(x in n for st in c["steps"] for n in st["names"] for x in ("..", "$CWD", "\\", "//")))
+        stats["multi_step_cases"] += len(r["steps"]) > 1
+        for sno, st in enumerate(r["steps"]):
+            mops, mout = mres[k]
+            k += 1
+            oc = st["outcome"].split()[0]
+            stats[oc if oc in stats else "other"] += 1
+            # --- monitor: the property's own oracle on the real filesystem
+            if st["outside"]:
+                run.hit(fingerprint="escape:" + json.dumps(key), what="extractall (step %d) created/changed/removed paths outside its destination: %r"
+                        % (sno, [x.replace(cwd, "$CWD") for x in st["outside"][:3]]), replay={"case": c, "result": r})
+            if oc == "EXC":
+                run.hit(fingerprint="exc:" + st["outcome"] + json.dumps(key), what="extractall raised " + st["outcome"], replay={"case": c, "result": r})
+            # --- correspondence
+            got = st["ops"]
+            if oc == "OSERROR":
+                # file/dir conflict inside the destination: real ops must be a prefix of the model's
+                # (the model does not track which directories already exist)
+                j = 0
+                ok = True
+                for g in got:
+                    while j < len(mops) and mops[j] != g:
+                        if mops[j][0] != "M":
+                            ok = False
+                            break
+                        j += 1
+                    if j >= len(mops):
                         ok = False
+                    if not ok:
                         break
                     j += 1
-                if j >= len(want):
-                    ok = False
                 if not ok:
-                    break
-                j += 1
-            if not ok:
-                disagreements.append("ops (OSError case) %s: impl %r model %r" % (json.dumps(key), got, want))
-            continue
-        if oc != mout:
-            disagreements.append("outcome %s: impl %s model %s" % (json.dumps(key), r["outcome"], mout))
-            continue
-        # makedirs is only called when the directory does not exist yet: compare opens exactly,
-        # and require every real makedirs to be one the model predicts, in order
-        if [o for o in r["ops"] if o[0] == "W"] != [o for o in mops if o[0] == "W"]:
-            disagreements.append("writes %s: impl %r model %r" % (json.dumps(key), r["ops"], mops))
-            continue
-        mm = [o[1] for o in mops if o[0] == "M"]
-        j = 0
-        for o in r["ops"]:
-            if o[0] != "M":
+                    disagreements.append("ops (OSError case) %s step %d: impl %r model %r" % (json.dumps(key), sno, got, mops))
                 continue
-            while j < len(mm) and mm[j] != o[1]:
-                j += 1
-            if j >= len(mm):
-                disagreements.append("makedirs %s: impl %r model %r" % (json.dumps(key), r["ops"], mops))
-                break
-        if len(run.samples) < 5 and (oc == "REJ" or len(r["ops"]) > 2):
-            run.sample({"dst": key[0], "names": list(key[1]), "outcome": r["outcome"],
-                        "impl_ops": [[a, b.replace(r["cwd"], "$CWD")] for a, b in r["ops"]]})
+            if oc != mout:
+                disagreements.append("outcome %s step %d: impl %s model %s" % (json.dumps(key), sno, st["outcome"], mout))
+                continue
+            # makedirs is only called when the directory does not exist yet: compare opens exactly,
+            # and require every real makedirs to be one the model predicts, in order
+            if [o for o in got if o[0] == "W"] != [o for o in mops if o[0] == "W"]:
+                disagreements.append("writes %s step %d: impl %r model %r" % (json.dumps(key), sno, got, mops))
+                continue
+            mm = [o[1] for o in mops if o[0] == "M"]
+            j = 0
+            for o in got:
+                if o[0] != "M":
+                    continue
+                while j < len(mm) and mm[j] != o[1]:
+                    j += 1
+                if j >= len(mm):
+                    disagreements.append("makedirs %s step %d: impl %r model %r" % (json.dumps(key), sno, got, mops))
+                    break
+            # every file the model says is written must exist afterwards (unless a later member hit an OSError)
+        if len(run.samples) < 6 and (len(r["steps"]) > 1 or any(st["outcome"] == "REJ" for st in r["steps"])):
+            run.sample({"steps": [{"dst": a, "names": list(b)} for a, b in key], "outcomes": [st["outcome"] for st in r["steps"]]})
     return disagreements, stats
 
 
@@ -159,7 +178,8 @@ def check(run):
     run.rule = ("archives = optional benign members + one generated member name + optional trailing members; names are all "
                 "sequences of <=3 (quick) / <=4 (thorough) components from {.., ., '', a, b, out, out2, ou} plus sampled depth-5 "
                 "ones, with / or \\ separators, relative/absolute/double-slash, file or directory members; 12 destination "
-                "spellings. distinct = distinct (dst, names); non-trivial = some name contains '..', an absolute prefix, a "
+                "spellings; plus histories of 2-3 archives extracted by one process into sibling destinations where later archives "
+                "name files of earlier destinations. distinct = distinct (dst, names); non-trivial = some name contains '..', an absolute prefix, a "
                 "backslash or '//'")
     run.trusted = ["Coq 8.16.1 kernel (coqc), vm_compute in the Example only", "extraction (ExtrOcamlBasic directives only) + ocaml/c15/driver.ml",
                    "hand-written model of posixpath.normpath/join/dirname/abspath and of extract_member/extractall (coq/C15/Model.v); tie = differential run",
@@ -178,6 +198,8 @@ def check(run):
             ccases.append(json.load(open(os.path.join(corpus, fn))))
     for i, c in enumerate(ccases):
         c["id"] = -1 - i
+        if "steps" not in c:
+            c["steps"] = [{"dst": c.pop("dst"), "names": c.pop("names")}]
     dis, stats = run_cases(run, ccases + cases, exe, src)
     run.tie("extractall: model vs nuwiki.extractall (outcome, writes, makedirs)", len(ccases) + len(cases), dis)
     run.coverage["outcome_distribution"] = stats
@@ -196,6 +218,6 @@ def replay(obj):
     rc, out = core.run_impl("vt.harness.c15_impl", [sbox], src=src, input=json.dumps(case) + "\n")
     print(out)
     r = json.loads([l for l in out.splitlines() if l.startswith("{")][-1])
-    bad = bool(r.get("outside")) or r["outcome"].startswith("EXC")
+    bad = any(st.get("outside") or st["outcome"].startswith("EXC") for st in r["steps"])
     print("REPRODUCED" if bad else "not reproduced")
     return 1 if bad else 0
